@@ -1377,3 +1377,7 @@ mod tests {
         Ok(())
     }
 }
+
+#[cfg(kani)]
+#[path = "/verif/units/kani/seglog_mod.rs"]
+mod verif_kani;
